@@ -88,6 +88,58 @@ def kernel_cases(rng, n_ops, quick, shapes=None, metrics=False, pz=0.1, neg=Fals
                     o2.remove(v + "1")
                     o2.insert(0, v + "1")
                 cases.append({"shape": name, "expr": expr, "ops": ops, "order": o2, "style": "tf", "extents": ext, "zshape": 1, "tile": {"v": v, "s": rng.choice([1, 2])}})
+                # both ranks of a two-rank operand tiled (four ranks to swizzle): the second tiled variable is a reduced one
+                red = [w for w in vs if w not in expr["out"] and w != v]
+                if neg and red and rng.random() < 0.6:
+                    w = rng.choice(red)
+                    o3 = list(o2)
+                    kk = o3.index(w)
+                    o3[kk:kk + 1] = [w + "1", w + "0"]
+                    rng.shuffle(o3)
+                    # keep every tile loop above its own element loop
+                    for u in (v, w):
+                        i1, i0 = o3.index(u + "1"), o3.index(u + "0")
+                        if i1 > i0:
+                            o3[i1], o3[i0] = o3[i0], o3[i1]
+                    cases.append({"shape": name, "expr": expr, "ops": ops, "order": o3, "style": "tf", "extents": ext, "zshape": 1, "tile": {"v": v, "s": rng.choice([1, 2])},
+                                  "tile2": {"v": w, "s": rng.choice([1, 2])}})
+    if neg:
+        # wide two-variable kernels: an output fiber of 10-16 coordinates populated pass by pass (a reduction rank looped above the output rank)
+        for name in ("matvec", "reduce", "elem", "copy"):
+            expr = SHAPES[name]
+            vs = variables(expr)
+            if name in ("matvec", "reduce"):
+                # both variables tiled, extents 4-6, every interleaving of the four loops that keeps a tile loop above its element loop
+                for _ in range(max(12, n_ops // 2)):
+                    ext = {"m": rng.randint(4, 6), "k": rng.randint(4, 6)}
+                    a = {"k": "F", "e": [[m, {"k": "F", "e": [[k, {"k": "L", "v": rng.randint(1, 3)}] for k in range(ext["k"]) if rng.random() < 0.35]}] for m in range(ext["m"])]}
+                    a = {"k": "F", "e": [[m, r] for m, r in a["e"] if r["e"]]}
+                    ops = {"A": a}
+                    if name == "matvec":
+                        ops["B"] = {"k": "F", "e": [[k, {"k": "L", "v": rng.randint(1, 3)}] for k in range(ext["k"]) if rng.random() < 0.8]}
+                    for o in set(itertools.permutations(["m1", "m0", "k1", "k0"])):
+                        if o.index("m1") < o.index("m0") and o.index("k1") < o.index("k0"):
+                            cases.append({"shape": name, "expr": expr, "ops": ops, "order": list(o), "style": "tf", "extents": ext, "zshape": 1,
+                                          "tile": {"v": "m", "s": 2}, "tile2": {"v": "k", "s": 2}})
+            for _ in range(max(10, n_ops // 2)):
+                nc = rng.randint(12, 16)
+                ext = {v: (nc if v in expr["out"] else 3) for v in vs}
+                def tr(ix):
+                    if len(ix) == 1:
+                        return {"k": "F", "e": [[c, {"k": "L", "v": rng.randint(1, 2)}] for c in range(ext[ix[0]]) if rng.random() < 0.6]}
+                    return {"k": "F", "e": [[c, tr(ix[1:])] for c in range(ext[ix[0]]) if rng.random() < 0.8]}
+                ops = {f["t"]: tr(f["ix"]) for f in expr["facs"]}
+                if name in ("matvec", "reduce") and rng.random() < 0.7:
+                    # "staircase": the first pass of the reduction fills a dense low block of the output, the later passes add a few coordinates far beyond it
+                    rows = {m: {0: rng.randint(1, 2)} for m in range(rng.randint(9, 11))}
+                    for k in range(1, ext["k"]):
+                        for m in (rng.randint(0, 1), rng.randint(11, nc - 1), rng.randint(11, nc - 1)):
+                            rows.setdefault(m, {})[k] = rng.randint(1, 2)
+                    ops["A"] = {"k": "F", "e": [[m, {"k": "F", "e": [[k, {"k": "L", "v": v}] for k, v in sorted(r.items())]}] for m, r in sorted(rows.items())]}
+                    if "B" in ops:
+                        ops["B"] = {"k": "F", "e": [[k, {"k": "L", "v": rng.randint(1, 2)}] for k in range(ext["k"])]}
+                for order in itertools.permutations(vs):
+                    cases.append({"shape": name, "expr": expr, "ops": ops, "order": list(order), "style": "tf", "extents": ext, "zshape": 1})
     return cases
 
 
